@@ -691,9 +691,9 @@ def HoldsReading (o : Obs) (tbl : List ReadSrc) (e : Ev) : Prop :=
   ∃ s ∈ tbl, ∃ v, o.reads s.bit = some v ∧ e.id = s.idRead ∧ e.data = v.map (· % u64)
 
 /-- Lemma B: every event of the entry hook is a READ event holding the reading of its source -/
-theorem saveReadL_entry_events (off now midx : Nat) (o : Obs) (mask : Nat) (tbl srcs : List ReadSrc) :
+theorem saveReadL_entry_events (pair : Bool) (off now midx : Nat) (o : Obs) (mask : Nat) (tbl srcs : List ReadSrc) :
     (∀ x ∈ srcs, x ∈ tbl) → ∀ f : EFrame, (∀ e ∈ f.evs, HoldsReading o tbl e) →
-      ∀ e ∈ (saveReadL off now midx false o mask srcs f).evs, HoldsReading o tbl e := by
+      ∀ e ∈ (saveReadL pair off now midx false o mask srcs f).evs, HoldsReading o tbl e := by
   induction srcs with
   | nil => intro _ f h; simpa [saveReadL] using h
   | cons s r ih =>
@@ -708,11 +708,13 @@ theorem saveReadL_entry_events (off now midx : Nat) (o : Obs) (mask : Nat) (tbl 
       · exact h e' he'
       · split at he'
         · exact h e' he'
-        · rename_i v hv
-          simp only [List.mem_cons] at he'
-          rcases he' with rfl | he'
-          · exact ⟨s, hsub s (by simp), v, hv, by simp [mkReadEv], by simp [mkReadEv]⟩
+        · split at he'
           · exact h e' he'
+          · rename_i v hv
+            simp only [List.mem_cons] at he'
+            rcases he' with rfl | he'
+            · exact ⟨s, hsub s (by simp), v, hv, by simp [mkReadEv], by simp [mkReadEv]⟩
+            · exact h e' he'
 
 
 /-- what an event of the exit hook is made from: the reading `o` gave for its source and, if the
@@ -729,27 +731,34 @@ theorem find_pre_none (pre : List Ev) (id : Nat) (h : ∀ e ∈ pre, e.id ≠ id
   intro x hx
   simp [h x hx]
 
-theorem saveReadOne_cases (off now midx : Nat) (diff : Bool) (o : Obs) (mask : Nat) (f : EFrame) (s : ReadSrc) :
-    saveReadOne off now midx diff o mask f s = f ∨
+theorem saveReadOne_cases (pair : Bool) (off now midx : Nat) (diff : Bool) (o : Obs) (mask : Nat) (f : EFrame) (s : ReadSrc) :
+    saveReadOne pair off now midx diff o mask f s = f ∨
     ∃ v, o.reads s.bit = some v ∧ ¬ (f.eventIdx < s.evsize + off) ∧ (mask &&& s.bit == 0) = false ∧
-      (saveReadOne off now midx diff o mask f s).evs = mkReadEv f now midx diff s v :: f.evs ∧
-      (saveReadOne off now midx diff o mask f s).eventIdx = f.eventIdx - s.evsize := by
+      (pair && diff && !hasRead f s) = false ∧
+      (saveReadOne pair off now midx diff o mask f s).evs = mkReadEv f now midx diff s v :: f.evs ∧
+      (saveReadOne pair off now midx diff o mask f s).eventIdx = f.eventIdx - s.evsize := by
   unfold saveReadOne
   by_cases h1 : (mask &&& s.bit == 0) = true
   · left; simp [h1]
-  · by_cases h2 : f.eventIdx < s.evsize + off
-    · left; simp [h1, h2]
-    · cases h3 : o.reads s.bit with
-      | none => left; simp [h1, h2, h3]
-      | some v => right; exact ⟨v, rfl, h2, by simpa using h1, by simp [h1, h2, h3], by simp [h1, h2, h3]⟩
+  · by_cases h0 : (pair && diff && !hasRead f s) = true
+    · left; simp only [h1, h0, ↓reduceIte, Bool.false_eq_true]
+    · by_cases h2 : f.eventIdx < s.evsize + off
+      · left; simp only [h1, h0, h2, ↓reduceIte, Bool.false_eq_true]
+      · cases h3 : o.reads s.bit with
+        | none => left; simp only [h1, h0, h2, h3, ↓reduceIte, Bool.false_eq_true]
+        | some v =>
+          right
+          exact ⟨v, rfl, h2, by simpa using h1, by simpa using h0,
+            by simp only [h1, h0, h2, h3, ↓reduceIte, Bool.false_eq_true],
+            by simp only [h1, h0, h2, h3, ↓reduceIte, Bool.false_eq_true]⟩
 
 /-- Lemma A: the exit hook's loop -/
-theorem saveReadL_exit_events (off now midx : Nat) (o : Obs) (mask : Nat) (tbl : List ReadSrc) (base : List Ev)
+theorem saveReadL_exit_events (pair : Bool) (off now midx : Nat) (o : Obs) (mask : Nat) (tbl : List ReadSrc) (base : List Ev)
     (srcs : List ReadSrc) :
     (∀ x ∈ srcs, x ∈ tbl) → (srcs.map (·.idRead)).Nodup → (∀ s ∈ srcs, ∀ s' ∈ srcs, s.idDiff ≠ s'.idRead) →
     ∀ (f : EFrame) (pre : List Ev), f.evs = pre ++ base → (∀ e ∈ pre, ∀ s ∈ srcs, e.id ≠ s.idRead) →
       (∀ e ∈ pre, FromExit o tbl base e) →
-      ∃ new, (saveReadL off now midx true o mask srcs f).evs = new ++ base ∧ ∀ e ∈ new, FromExit o tbl base e := by
+      ∃ new, (saveReadL pair off now midx true o mask srcs f).evs = new ++ base ∧ ∀ e ∈ new, FromExit o tbl base e := by
   induction srcs with
   | nil => intro _ _ _ f pre h1 _ h3; exact ⟨pre, by simpa [saveReadL] using h1, h3⟩
   | cons s r ih =>
@@ -767,7 +776,7 @@ theorem saveReadL_exit_events (off now midx : Nat) (o : Obs) (mask : Nat) (tbl :
     have hdr' : ∀ a ∈ r, ∀ b ∈ r, a.idDiff ≠ b.idRead :=
       fun a ha b hb => hdr a (by simp [ha]) b (by simp [hb])
     have hpre' : ∀ e ∈ pre, ∀ s' ∈ r, e.id ≠ s'.idRead := fun e he s' hs' => hpre e he s' (by simp [hs'])
-    rcases saveReadOne_cases off now midx true o mask f s with h | ⟨v, hv, _, _, hevs, _⟩
+    rcases saveReadOne_cases pair off now midx true o mask f s with h | ⟨v, hv, _, _, _, hevs, _⟩
     · rw [h]; exact ih hsub' hnd' hdr' f pre hf hpre' hfrom
     · have hfind : f.evs.find? (fun x => x.id == s.idRead) = base.find? (fun x => x.id == s.idRead) := by
         rw [hf, List.find?_append, find_pre_none pre s.idRead (fun e he => hpre e he s (by simp))]
@@ -804,10 +813,14 @@ theorem entryFrame_holds (cfg : ECfg) (k : Kind) (f t0 d : Nat) (o : Obs) :
   have hfe : (freshFrame cfg k f t0 d).evs = [] := rfl
   cases hk : (k == Kind.pg) <;> simp only [↓reduceIte, Bool.false_eq_true] <;> split
   · simp only [setReadFl, saveRead]
-    exact saveReadL_entry_events _ _ _ o _ readEvents readEvents (fun x hx => hx) _ (by simp [hfe])
+    split
+    · simp [hfe]
+    · exact saveReadL_entry_events _ _ _ _ o _ readEvents readEvents (fun x hx => hx) _ (by simp [hfe])
   · simp [hfe]
   · simp only [setReadFl, saveRead]
-    exact saveReadL_entry_events _ _ _ o _ readEvents readEvents (fun x hx => hx) _ (by simp [hsa, hfe])
+    split
+    · simp [hsa, hfe]
+    · exact saveReadL_entry_events _ _ _ _ o _ readEvents readEvents (fun x hx => hx) _ (by simp [hsa, hfe])
   · simp [hsa, hfe]
 
 /-- the events the exit hook adds to the frame `F`, oldest first, are what is written before EXIT -/
@@ -822,12 +835,12 @@ theorem exitFrame_events (cfg : ECfg) (F : EFrame) (t1 d : Nat) (o : Obs)
     unfold exitFrame exitArea
     split
     · obtain ⟨n1, h1, h2⟩ := saveRead_evs cfg (setEnd F t1) (cfg.read (setEnd F t1).b.addr) (d + 1) true o
-      obtain ⟨n2, h3, h4⟩ := saveReadL_exit_events (argDataOff cfg (setEnd F t1) o.probe) (hookTime (setEnd F t1).b)
+      obtain ⟨n2, h3, h4⟩ := saveReadL_exit_events cfg.fixPair (argDataOff cfg (setEnd F t1) o.probe) (hookTime (setEnd F t1).b)
         (d + 1) o (cfg.read (setEnd F t1).b.addr) readEvents F.evs readEvents (fun x hx => hx)
         readEvents_distinct.1 readEvents_distinct.2 (setEnd F t1) [] (by simp) (by simp) (by simp)
       have hn : n1 = n2 := by
         have : n1 ++ F.evs = n2 ++ F.evs := by
-          rw [← setEnd_evs F t1, ← h1, saveRead]; exact h3
+          rw [← setEnd_evs F t1, ← h1, saveRead_exit]; exact h3
         exact List.append_cancel_right this
       refine ⟨n1, by rw [h1]; rfl, ?_, by rw [hn]; exact h4⟩
       intro e he
@@ -1195,7 +1208,7 @@ theorem entryFinish_eq (cfg : ECfg) (sB : ESt) (F : EFrame) (rest : List EFrame)
 
 /-- the exit hook of a call that passes the time filter: record_trace_data -/
 theorem exitFinish_record (cfg : ECfg) (sB : ESt) (f f1 : EFrame) (rest : List EFrame) (tf : Nat) (retv : Bool) (o : Obs)
-    (hc : durOk cfg.base (f.b.endT - f.b.start) tf = true) (hcm : cfg.base.callerMode = false) :
+    (hc : durOk cfg.base (subU64 f.b.endT f.b.start) tf = true) (hcm : cfg.base.callerMode = false) :
     exitFinish cfg sB f f1 rest tf retv o =
       ({ watchStep cfg sB f1.b rest.length o with frames := f1 :: rest } : ESt).recorded
         (recordTraceE cfg retv (f1 :: rest) (watchStep cfg sB f1.b rest.length o).pend) := by
@@ -1344,7 +1357,7 @@ theorem exitE_T_unfold (cfg : ECfg) (s2 : ESt) (top : EFrame) (rest : List EFram
 /-- the tail of the exit hook for a call the time filter drops (repaired tag rule): the pending watch
     events of this call and of its callees go, everything older stays, nothing is written -/
 theorem exitFinish_drop (cfg : ECfg) (sB : ESt) (f f1 : EFrame) (rest : List EFrame) (tf : Nat) (retv : Bool) (o : Obs)
-    (hshort : durOk cfg.base (f.b.endT - f.b.start) tf = false) (hw : f.b.written = false) (htr : f.b.trace = false)
+    (hshort : durOk cfg.base (subU64 f.b.endT f.b.start) tf = false) (hw : f.b.written = false) (htr : f.b.trace = false)
     (p0 W0 : List Ev) (hpend : sB.pend = p0 ++ W0) (h0 : ∀ e ∈ p0, e.idx < rest.length + 1)
     (hW0 : ∀ e ∈ W0, e.idx = rest.length + 1) (hfix : cfg.fixIdx = true) (hmax : rest.length + 1 < ASYNC_IDX) :
     (exitFinish cfg sB f f1 rest tf retv o).pend = p0 ∧
@@ -1374,7 +1387,7 @@ theorem exitFinish_drop (cfg : ECfg) (sB : ESt) (f f1 : EFrame) (rest : List EFr
   have hks : keepSync (watchStep cfg sB f1.b rest.length o).pend (rest.length + 1) = p0 := by
     rw [hp']
     exact keepSync_split p0 (W0 ++ W) (rest.length + 1) h0 (fun e he => by have := hWi e he; omega)
-  have hc : ((durOk cfg.base (f.b.endT - f.b.start) tf && (!cfg.base.callerMode || f.b.caller)) || f.b.written || f.b.trace) = false := by
+  have hc : ((durOk cfg.base (subU64 f.b.endT f.b.start) tf && (!cfg.base.callerMode || f.b.caller)) || f.b.written || f.b.trace) = false := by
     simp [hshort, hw, htr]
   unfold exitFinish
   simp only [hc, Bool.false_eq_true, ↓reduceIte, hna]
@@ -1390,10 +1403,12 @@ theorem exitFinish_drop (cfg : ECfg) (sB : ESt) (f f1 : EFrame) (rest : List EFr
 
 
 mutual
-  /-- every call of the history is one the time filter -t thr drops: it ran less than `thr`
-      (not longer than `thr` for the code before the repair of finding S4, `base.s4fixed = false`) -/
+  /-- every call of the history is one the time filter -t thr drops: its duration on the 64-bit clock,
+      `t1 - t0` modulo 2^64 as the exit hook computes it, is less than `thr` (not longer than `thr`
+      for the code before the repair of finding S4, `base.s4fixed = false`).  A call whose exit time
+      stamp lies before its entry time stamp is not short: its duration wraps to almost 2^64. -/
   def ECall.short (b : Cfg) (thr : Nat) : ECall → Prop
-    | .node _ t0 t1 _ _ kids => durOk b (t1 - t0) thr = false ∧ kids.short b thr
+    | .node _ t0 t1 _ _ kids => durOk b (subU64 t1 t0) thr = false ∧ kids.short b thr
   def ECalls.short (b : Cfg) (thr : Nat) : ECalls → Prop
     | .nil => True
     | .cons c rest => c.short b thr ∧ rest.short b thr
@@ -1403,7 +1418,7 @@ theorem exitE_T_drop (cfg : ECfg) (hp : PlainT cfg) (hfix : cfg.fixIdx = true) (
     (d f t0 t1 : Nat) (F : EFrame) (o : Obs) (W : List Ev)
     (hb : F.b = plainFrame k f t0 d) (hg : GoodT s d) (hg2 : GoodT s2 (d + 1))
     (hfr : s2.frames = F :: s.frames) (hpend : s2.pend = s.pend ++ W) (hW : ∀ e ∈ W, e.idx = d + 1)
-    (hout : s2.out = s.out) (hshort : durOk cfg.base (t1 - t0) cfg.base.threshold = false) (hdm : d + 1 < ASYNC_IDX) :
+    (hout : s2.out = s.out) (hshort : durOk cfg.base (subU64 t1 t0) cfg.base.threshold = false) (hdm : d + 1 < ASYNC_IDX) :
     (exitE cfg s2 t1 o).out = s.out ∧
     (exitE cfg s2 t1 o).pend = s.pend ∧
     (exitE cfg s2 t1 o).frames = s.frames ∧
